@@ -307,13 +307,13 @@ impl Engine for StackEngine {
                         results.push(send(svc.clone(), request("http", 0, c2.host_header)).await);
                     }
                     2 => {
-                        if let Ok(mut s) = client.connect(1024).await {
+                        if let Ok(Ok(mut s)) = tokio::time::timeout(Duration::from_secs(5), client.connect(1024)).await {
                             let _ = s.write_all(&[0x16, 0x03, 0x01, 0x00, 0xe9, 0x01, 0x00, 0x00]).await;
                             tokio::time::sleep(Duration::from_millis(5)).await;
                         }
                     }
                     _ => {
-                        if let Ok(s) = client.connect(1024).await {
+                        if let Ok(Ok(s)) = tokio::time::timeout(Duration::from_secs(5), client.connect(1024)).await {
                             tokio::time::sleep(Duration::from_millis(50)).await;
                             drop(s);
                         }
